@@ -301,6 +301,38 @@ func runLBCB(x *X) {
 		}
 	}
 
+	// ---- a third balancer: a failure that also ejects its backend is still a failure ----------------
+	// One backend, passive threshold 1, window 1 s: every failed response ejects the backend for a
+	// second. failure_threshold such responses (each one after the previous window has run out, all
+	// within the breaker's counting interval) must open the breaker like any others: the next request
+	// finds a backend that is eligible again and must still be refused without contacting it.
+	if ft := cb.FailureThreshold; !x.dead && x.Want("C07") && ft >= 1 && interval > time.Duration(ft)*1200*time.Millisecond+time.Second && timeout > 1500*time.Millisecond && c.Intn(3, "ejecting-failures-phase") == 0 {
+		net3 := newStubNet(x)
+		net3.add("solo3", x.BackendHost(7, 9), "")
+		var h3 *lbHarness
+		x.Do("setup3", func() {
+			h3, _ = newLBHarness(x, net3, lbOpts{strategy: strategy, backends: []config.BackendConfig{{Name: "solo3", Address: "http://" + x.BackendHost(7, 9), Weight: 1}},
+				breaker: &cb, passive: true, threshold: 1, window: 1})
+		}, onErr)
+		if h3 != nil {
+			var r simResult
+			reached := 0
+			for k := 0; k < ft && !x.dead; k++ {
+				x.Do("req", func() { r = h3.do(reqSpec{client: "192.0.2.9", plan: &reqPlan{mode: []string{"s500", "s502", "abort"}[k%3]}}) }, onErr)
+				if net3.dispatchedTo(r.id) != "" {
+					reached++
+				}
+				x.Advance(1100*time.Millisecond, onErr)
+			}
+			x.Do("req", func() { r = h3.do(reqSpec{client: "192.0.2.9"}) }, onErr)
+			if !x.dead && reached == ft && net3.dispatchedTo(r.id) != "" {
+				x.Violate("C07", "C07/failures-did-not-open{failures-that-eject-their-backend}", "%d failed proxied requests within %v (failure_threshold %d, counting interval %v), each of which also ejected the only backend for a second (passive threshold 1): the breaker did not open, the next request was sent to the backend (status %d)", ft, time.Duration(ft)*1100*time.Millisecond, ft, interval, r.status)
+			}
+			x.Probe("ejecting-failures-open-the-breaker")
+			x.Do("stop3", func() { h3.lb.Stop() }, onErr)
+		}
+	}
+
 	// ---- biased tail: clients that walk away ---------------------------------
 	// A slow request admitted while the breaker is closed is still waiting for its backend when
 	// the breaker trips and reaches half-open; the client of a half-open trial gives up before the
